@@ -141,19 +141,20 @@ func isStringTagSupportedType(typ *runtime.Type) bool {
 	case runtime.PtrTo(typ).Implements(unmarshalTextType):
 		return false
 	}
-	switch typ.Kind() {
-	case reflect.Map:
-		return false
-	case reflect.Slice:
-		return false
-	case reflect.Array:
-		return false
-	case reflect.Struct:
-		return false
-	case reflect.Interface:
-		return false
+	// as in encoding/json: the option applies to booleans, numbers and strings, looking through at
+	// most one (unnamed) pointer; on every other type it is ignored
+	if typ.Name() == "" && typ.Kind() == reflect.Ptr {
+		typ = typ.Elem()
 	}
-	return true
+	switch typ.Kind() {
+	case reflect.Bool,
+		reflect.Int, reflect.Int8, reflect.Int16, reflect.Int32, reflect.Int64,
+		reflect.Uint, reflect.Uint8, reflect.Uint16, reflect.Uint32, reflect.Uint64, reflect.Uintptr,
+		reflect.Float32, reflect.Float64,
+		reflect.String:
+		return true
+	}
+	return false
 }
 
 func compileMapKey(typ *runtime.Type, structName, fieldName string, structTypeToDecoder map[uintptr]Decoder) (Decoder, error) {
@@ -467,16 +468,24 @@ func filterDuplicatedFields(allFields []*structFieldSet) []*structFieldSet {
 		fieldMap[field.key] = append(fieldMap[field.key], field)
 	}
 	duplicatedFieldMap := map[string]struct{}{}
+	dominantFieldMap := map[string]*structFieldSet{}
 	for k, sets := range fieldMap {
 		sets = filterFieldSets(sets)
 		if len(sets) != 1 {
 			duplicatedFieldMap[k] = struct{}{}
+			continue
 		}
+		dominantFieldMap[k] = sets[0]
 	}
 
 	filtered := make([]*structFieldSet, 0, len(allFields))
 	for _, field := range allFields {
 		if _, exists := duplicatedFieldMap[field.key]; exists {
+			continue
+		}
+		if dominantFieldMap[field.key] != field {
+			// several fields share the name and exactly one of them is tagged: that one is the
+			// field, the others do not exist as far as JSON is concerned
 			continue
 		}
 		filtered = append(filtered, field)
